@@ -62,80 +62,216 @@ func cliFn(c *Ctx, recv, name string) *Fn { return c.Func("tun/client", recv, na
 
 func runC43(c *Ctx) {
 	sy := cliFn(c, "Client", "SyncConfigTunnels")
-	// available appends
+	// Roles, not names. A *hostname write* assigns a tunnel's Hostname field. The *available
+	// list* is the slice whose head such a write takes (directly or through a local); when it
+	// is produced by an invoked literal (an inlined helper) the slice that literal returns is
+	// the same list. The *in-use set* is the map whose comma-ok lookup guards the appends.
+	type hwrite struct {
+		as  *ast.AssignStmt
+		rhs ast.Expr
+	}
+	var writes []hwrite
+	for _, nd := range shallowNodes(sy.Body) {
+		as, ok := nd.(*ast.AssignStmt)
+		if !ok || len(as.Lhs) != len(as.Rhs) {
+			continue
+		}
+		for i, l := range as.Lhs {
+			if se, ok := ast.Unparen(l).(*ast.SelectorExpr); ok && se.Sel.Name == "Hostname" && sy.Info.Selections[se] != nil {
+				writes = append(writes, hwrite{as, as.Rhs[i]})
+			}
+		}
+	}
+	avail := map[*types.Var]bool{}
+	headOf := func(g *Fn, e ast.Expr) *types.Var {
+		if ix, ok := ast.Unparen(e).(*ast.IndexExpr); ok {
+			if v, _ := g.ConstVal(ix.Index); v == "0" {
+				return g.varOf(ix.X)
+			}
+		}
+		return nil
+	}
+	for _, w := range writes {
+		if v := headOf(sy, w.rhs); v != nil {
+			avail[v] = true
+		}
+		if lv := sy.varOf(w.rhs); lv != nil {
+			for _, d := range sy.defsOf(lv) {
+				if d.rhs != nil {
+					if v := headOf(sy.enclosing(d.rhs), d.rhs); v != nil {
+						avail[v] = true
+					}
+				}
+			}
+		}
+	}
+	for changed := true; changed; {
+		changed = false
+		for v := range avail {
+			for _, d := range sy.defsOf(v) {
+				if d.rhs == nil {
+					continue
+				}
+				g := sy.enclosing(d.rhs)
+				if lc, ok := ast.Unparen(d.rhs).(*ast.CallExpr); ok {
+					if lit := g.litOfCallee(lc); lit != nil {
+						h := g.enclosing(lit).Closure(lit)
+						for _, r := range h.Returns() {
+							if d.idx < len(r.Results) {
+								if rv := h.varOf(r.Results[d.idx]); rv != nil && !avail[rv] {
+									avail[rv] = true
+									changed = true
+								}
+							}
+						}
+					}
+				}
+			}
+		}
+	}
+	c.Floor("available lists", len(avail), 1)
+	isAvail := func(g *Fn, e ast.Expr) bool { v := g.varOf(e); return v != nil && avail[v] }
+	// appends to the available list
 	nav := 0
-	for _, call := range sy.Calls(false, func(call *ast.CallExpr) bool {
+	var inuse *types.Var
+	for _, call := range sy.Calls(true, func(call *ast.CallExpr) bool {
 		id, ok := call.Fun.(*ast.Ident)
-		return ok && id.Name == "append" && len(call.Args) == 2 && types_ExprString(call.Args[0]) == "available"
+		if !ok || id.Name != "append" || len(call.Args) != 2 {
+			return false
+		}
+		return isAvail(sy.enclosing(call), call.Args[0])
 	}) {
 		nav++
+		g := sy.enclosing(call)
 		fs := sy.FactsAt(call)
 		noDot := fs.Has(func(fa *Fact) bool {
-			if fa.Kind != FFalse || !sy.IsCall(fa.Call, "strings.Contains") {
+			if fa.Kind != FFalse || !g.IsCall(fa.Call, "strings.Contains") {
 				return false
 			}
-			v, _ := sy.ConstVal(fa.Call.Args[1])
-			return v == "\".\"" && sy.varOf(fa.Call.Args[0]) == sy.varOf(call.Args[1])
+			v, _ := g.ConstVal(fa.Call.Args[1])
+			return v == "\".\"" && g.varOf(fa.Call.Args[0]) != nil && g.varOf(fa.Call.Args[0]) == g.varOf(call.Args[1])
 		})
-		notUsed := fs.Cmp(func(e, tag ast.Expr, truth bool, fa *Fact) bool {
-			id, ok := e.(*ast.Ident)
-			if !ok || truth || id.Name != "ok" {
-				return false
+		// the candidate is known absent from a map: that map is the in-use set
+		notUsed := false
+		for _, nd := range shallowNodes(g.Body) {
+			ix, ok := nd.(*ast.IndexExpr)
+			if !ok {
+				continue
 			}
-			return true
-		})
+			m := g.varOf(ix.X)
+			if m == nil {
+				continue
+			}
+			if _, isMap := m.Type().Underlying().(*types.Map); !isMap {
+				continue
+			}
+			if g.varOf(ix.Index) != nil && g.varOf(ix.Index) == g.varOf(call.Args[1]) && g.notInSeen(fs, m, g.Prov(ix.Index)) {
+				notUsed = true
+				inuse = m
+			}
+		}
 		c.Ob("sync", "SyncConfigTunnels#available<-registered-without-dot", call.Pos(), noDot, "only auto-generated names (no dot) are reused, never a custom domain")
 		c.Ob("sync", "SyncConfigTunnels#available<-not-in-use", call.Pos(), notUsed, "a name already used by a configured tunnel is not offered again")
-		c.Ob("sync", "SyncConfigTunnels#available-from-registered", call.Pos(), strings.Contains(sy.Prov(call.Args[1]), "GetRegisteredHostnames()#0"), "candidates come from the hostnames registered to this client; found "+sy.Prov(call.Args[1]))
+		c.Ob("sync", "SyncConfigTunnels#available-from-registered", call.Pos(), strings.Contains(g.Prov(call.Args[1]), "GetRegisteredHostnames()#0"), "candidates come from the hostnames registered to this client; found "+g.Prov(call.Args[1]))
 	}
 	c.Floor("available append sites", nav, 1)
-	// inused filled from every configured tunnel's hostname
+	// the in-use set is filled from every configured tunnel's hostname
 	okIn := false
-	ast.Inspect(sy.Body, func(n ast.Node) bool {
-		as, ok := n.(*ast.AssignStmt)
-		if !ok || len(as.Lhs) != 1 {
-			return true
+	if inuse != nil {
+		for _, in := range sy.seenInserts(sy.Body) {
+			if in.m == inuse && strings.HasSuffix(in.key, ".Hostname") {
+				okIn = true
+			}
 		}
-		if ix, ok := as.Lhs[0].(*ast.IndexExpr); ok && types_ExprString(ix.X) == "inused" && strings.HasSuffix(types_ExprString(ix.Index), "Hostname") {
-			okIn = true
-		}
-		return true
-	})
+	}
 	c.Ob("sync", "SyncConfigTunnels#inused-covers-configured-hostnames", sy.Decl.Pos(), okIn, "the in-use set is built from the hostnames of all configured tunnels")
 	// hostname writes
 	nwr := 0
-	ast.Inspect(sy.Body, func(n ast.Node) bool {
-		as, ok := n.(*ast.AssignStmt)
-		if !ok || len(as.Lhs) != 1 {
-			return true
-		}
-		se, ok := as.Lhs[0].(*ast.SelectorExpr)
-		if !ok || se.Sel.Name != "Hostname" {
-			return true
-		}
+	okPop := false
+	for _, w := range writes {
+		as := w.as
 		nwr++
 		fs := sy.FactsAt(as)
 		wasEmpty := fs.Cmp(func(e, tag ast.Expr, truth bool, fa *Fact) bool {
-			be, ok := e.(*ast.BinaryExpr)
-			if !ok {
+			be, ok := ast.Unparen(e).(*ast.BinaryExpr)
+			if !ok || tag != nil {
 				return false
 			}
-			v, _ := sy.ConstVal(be.Y)
-			return truth && be.Op == token.EQL && v == "\"\"" && strings.HasSuffix(types_ExprString(be.X), "Hostname")
+			x, y := be.X, be.Y
+			if v, _ := sy.ConstVal(x); v == "\"\"" {
+				x, y = y, x
+			}
+			v, _ := sy.ConstVal(y)
+			se, isSel := ast.Unparen(x).(*ast.SelectorExpr)
+			if v != "\"\"" || !isSel || se.Sel.Name != "Hostname" {
+				return false
+			}
+			return be.Op == token.EQL && truth || be.Op == token.NEQ && !truth
 		})
 		c.Ob("sync", "SyncConfigTunnels#assign-only-when-empty", as.Pos(), wasEmpty, "a hostname is assigned only to a tunnel that has none (configured names are never overwritten)")
-		// provenance of the value: popped from available, or requestHostname ok
-		v := sy.varOf(as.Rhs[0])
-		okSrc := v != nil
-		if okSrc {
+		// provenance of the value: the head of the available list (taken under len > 0 and
+		// removed from the list in the same statement), or a successful requestHostname
+		nonEmptyList := func(at ast.Node, lv *types.Var) bool {
+			return sy.FactsAt(at).Cmp(func(e, tag ast.Expr, truth bool, fa *Fact) bool {
+				be, ok := ast.Unparen(e).(*ast.BinaryExpr)
+				if !ok || tag != nil {
+					return false
+				}
+				v, _ := sy.ConstVal(be.Y)
+				if v != "0" || !isLenOf(sy, be.X, func(x ast.Expr) bool { return sy.varOf(x) == lv }) {
+					return false
+				}
+				switch be.Op {
+				case token.GTR, token.NEQ:
+					return truth
+				case token.EQL, token.LEQ:
+					return !truth
+				}
+				return false
+			})
+		}
+		popsIn := func(st *ast.AssignStmt, lv *types.Var) bool {
+			if len(st.Lhs) != len(st.Rhs) {
+				return false
+			}
+			for i, l := range st.Lhs {
+				if sy.varOf(l) != lv {
+					continue
+				}
+				if sl, ok := ast.Unparen(st.Rhs[i]).(*ast.SliceExpr); ok && sy.varOf(sl.X) == lv && sl.High == nil {
+					if l0, _ := sy.ConstVal(sl.Low); l0 == "1" {
+						return true
+					}
+				}
+			}
+			return false
+		}
+		okSrc := false
+		if lv := headOf(sy, w.rhs); lv != nil && avail[lv] {
+			okSrc = nonEmptyList(as, lv) && popsIn(as, lv)
+			okPop = okPop || okSrc
+		} else if v := sy.varOf(w.rhs); v != nil {
+			okSrc = true
 			bad, decided := sy.CutFromDefs(as, v, func(p string) bool {
 				// a definition is bad unless it is available[0] or requestHostname()#0
 				return !(strings.HasSuffix(p, "[const:0]") || strings.HasSuffix(p, ".requestHostname()#0"))
 			}, func(at atom) bool { return false })
 			okSrc = decided && bad == nil
-			// the request result is used only on its success edge
 			for _, d := range sy.defNodes(v) {
-				if da, ok := d.(*ast.AssignStmt); ok && len(da.Rhs) == 1 {
+				da, ok := d.(*ast.AssignStmt)
+				if !ok {
+					continue
+				}
+				// a head taken into the local: under len > 0, popped in the same statement
+				for i, r := range da.Rhs {
+					if lv := headOf(sy, r); lv != nil && i < len(da.Lhs) && sy.varOf(da.Lhs[i]) == v {
+						okHead := avail[lv] && nonEmptyList(da, lv) && popsIn(da, lv)
+						okSrc = okSrc && okHead
+						okPop = okPop || okHead
+					}
+				}
+				// the request result is used only on its success edge
+				if len(da.Rhs) == 1 {
 					if call, ok := da.Rhs[0].(*ast.CallExpr); ok && sy.IsCall(call, "tun/client.Client.requestHostname") {
 						reached, _ := sy.Reach(d, func(n ast.Node) bool { return false }, func(b *cfgBlock, si int) bool {
 							for _, at := range sy.edgeAtoms(b, si) {
@@ -156,34 +292,8 @@ func runC43(c *Ctx) {
 			}
 		}
 		c.Ob("sync", "SyncConfigTunnels#assigned-name-is-popped-or-freshly-requested", as.Pos(), okSrc, "the assigned name is the head of the available list or the result of a successful requestHostname")
-		return true
-	})
+	}
 	c.Floor("hostname assignment sites", nwr, 1)
-	// pop consumes
-	okPop := false
-	ast.Inspect(sy.Body, func(n ast.Node) bool {
-		as, ok := n.(*ast.AssignStmt)
-		if !ok || len(as.Lhs) != 2 || len(as.Rhs) != 2 {
-			return true
-		}
-		ix, ok1 := as.Rhs[0].(*ast.IndexExpr)
-		sl, ok2 := as.Rhs[1].(*ast.SliceExpr)
-		if ok1 && ok2 && types_ExprString(ix.X) == "available" && types_ExprString(sl.X) == "available" && types_ExprString(as.Lhs[1]) == "available" {
-			i0, _ := sy.ConstVal(ix.Index)
-			l0, _ := sy.ConstVal(sl.Low)
-			okPop = i0 == "0" && l0 == "1" && sl.High == nil
-			// guarded by len(available) > 0
-			okPop = okPop && sy.FactsAt(as).Cmp(func(e, tag ast.Expr, truth bool, fa *Fact) bool {
-				be, ok := e.(*ast.BinaryExpr)
-				if !ok {
-					return false
-				}
-				v, _ := sy.ConstVal(be.Y)
-				return truth && be.Op == token.GTR && v == "0" && isLenOf(sy, be.X, func(x ast.Expr) bool { return types_ExprString(x) == "available" })
-			})
-		}
-		return true
-	})
 	c.Ob("sync", "SyncConfigTunnels#pop-consumes-the-name", sy.Decl.Pos(), okPop, "taking a name from the available list removes it (name, available = available[0], available[1:]), under len(available) > 0")
 	// syncMu + copy
 	okMu := false
